@@ -21,7 +21,8 @@ def rebuild(route, q, cls):
     from qkeras.utils import _add_supported_quantized_objects
     co = {}
     _add_supported_quantized_objects(co)
-    return tf.keras.utils.deserialize_keras_object(tf.keras.utils.serialize_keras_object(q), custom_objects=co)
+    import tensorflow.keras as keras      # the Keras the library builds on (tf.keras resolves to legacy tf_keras once qkeras is imported)
+    return keras.utils.deserialize_keras_object(keras.utils.serialize_keras_object(q), custom_objects=co)
   raise ValueError(route)
 
 
